@@ -39,6 +39,7 @@ def families(tier):
         {'name': 'sb-next-build', 'params': {'depth': 1, 'width': 1, 'shape': SLIM, 'kw': False}, 'weight': 2},
         {'name': 'sb-same-build', 'params': {'depth': 1, 'width': 2, 'shape': TINY, 'kw': False, 'containers': ['dict']}, 'weight': 3},
         {'name': 'bf-next-build', 'params': {'depth': 0, 'width': 0, 'shape': SLIM, 'kw': True}, 'weight': 2},
+        {'name': 'bf-cwd', 'params': {'depth': 0, 'width': 0, 'shape': TINY, 'kw': False}, 'weight': 1},
         {'name': 'bf-next-build', 'params': {'depth': 1, 'width': 1, 'shape': TINY, 'kw': False, 'containers': ['dict'], 'spellings': ['abs']}, 'weight': 1},
     ]
     if tier == 'quick':
@@ -143,6 +144,33 @@ def harness(eng, fam, P):
             same = L.and_(n1 == n2, same_args)
             eng.check('C07.hit-iff-same-entry', same if observed else L.not_(same), sig + ('hit' if observed else 'miss',),
                       info={'call1': eng.path_info['call1'], 'call2': eng.path_info['call2'], 'hit': observed})
+        elif fam == 'bf-cwd':
+            # the same relative spelling under two working directories: the same entry iff the directory is the same
+            rel = ['o/t', './o/t', 'o//t'][eng.choose('relspelling', 3)]
+            rel2 = rel if eng.choose('samespelling', 2) == 0 else 'o/t'
+            other = eng.choose('othercwd', 2)
+            w.fs.add_dir(w.p('q'))
+            w.fs.add_dir(w.p('q/o'))
+            if not w.real:
+                pass
+            cwd1 = w.root
+            cwd2 = w.p('q') if other else w.root
+            w.fs.cwd = cwd1
+            FileBuilder.build(w.cache, 'n', lambda b: b.build_file(rel, n1, bf, a1, **kw1))
+            k = len(calls)
+            w.fs.cwd = cwd2
+            FileBuilder.build(w.cache, 'n', lambda b: b.build_file(rel2, n2, bf, a2, **kw2))
+            w.fs.cwd = cwd1
+            observed = len(calls) == k
+            same = L.and_(n1 == n2, not other, same_args)
+            how = 'cwd-%s' % ('other' if other else 'same')
+            eng.check('C07.hit-iff-same-entry', same if observed else L.not_(same), sig + ('hit' if observed else 'miss', how),
+                      info={'call1': eng.path_info['call1'], 'call2': eng.path_info['call2'], 'hit': observed, 'spelling': rel2, 'cwd': how})
+            exp_path = (w.p('q/o/t') if other else w.p('o/t'))
+            eng.check('C07.relative-path-resolved-against-cwd', w.fs.kind(exp_path) == 1, sig + (how,),
+                      info={'expected file': exp_path})
+            if observed and rel2 != 'o/t':
+                eng.witness('spelling-variant-hit')
         else:
             sp = P.get('spellings', SPELLINGS)
             how = sp[eng.choose('spelling', len(sp))]
